@@ -8,7 +8,7 @@ import builtins
 import os
 import tempfile as _tempfile
 
-PRIMS = ('exists', 'open', 'fdopen', 'unlink', 'utime', 'stat', 'rename', 'mkstemp', 'makedirs', 'fsync', 'close', 'listdir', 'write', 'flush', 'fclose', 'link')
+PRIMS = ('exists', 'open', 'fdopen', 'unlink', 'utime', 'stat', 'rename', 'mkstemp', 'makedirs', 'fsync', 'close', 'listdir', 'write', 'flush', 'fclose', 'link', 'truncate')
 
 
 class FileProxy:
@@ -28,6 +28,10 @@ class FileProxy:
     def close(self):
         self._hook('fclose', self._name)
         return self._f.close()
+
+    def truncate(self, *a):
+        self._hook('truncate', self._name)
+        return self._f.truncate(*a)
 
     def fileno(self):
         return self._f.fileno()
@@ -66,6 +70,10 @@ class TracedWriter(io.BufferedWriter):
         if not self.closed:
             self._jv_hook('fclose', self._jv_name)
         return super().close()
+
+    def truncate(self, *a):
+        self._jv_hook('truncate', self._jv_name)
+        return super().truncate(*a)
 
 
 def install(hook, wrap_files=False, plain_proxy=False):
